@@ -60,24 +60,6 @@ Proof.
   destruct (same_client (c_cid c) (c_uid c) d); [left; reflexivity|right; exact IH].
 Qed.
 
-Lemma del_client_keeps cid uid l x : In x l -> same_client cid uid x = false -> In x (del_client cid uid l).
-Proof. intros Hi Hs. unfold del_client. apply filter_In. split; [exact Hi|rewrite Hs; reflexivity]. Qed.
-
-Lemma scan_keeps bal tmin snap x : forall cl ds outs cl' ds' outs',
-  scan bal tmin snap cl ds outs = (cl', ds', outs') -> In x cl ->
-  (forall y, In y snap -> c_tlast y <? tmin = true -> same_client (c_cid y) (c_uid y) x = false) ->
-  In x cl'.
-Proof.
-  induction snap as [|c rest IH]; intros cl ds outs cl' ds' outs' E Hi Hk; cbn in E; [inversion E; subst; exact Hi|].
-  assert (Hk' : forall y, In y rest -> c_tlast y <? tmin = true -> same_client (c_cid y) (c_uid y) x = false)
-    by (intros y Hy; apply Hk; right; exact Hy).
-  destruct (c_tlast c <? tmin) eqn:Et.
-  - eapply IH; [exact E| |exact Hk']. apply del_client_keeps; [exact Hi|]. apply Hk; [left; reflexivity|exact Et].
-  - destruct bal.
-    + destruct (out_get (c_out c) outs) as [[[d n] p]|]; eapply IH; try exact E; assumption.
-    + destruct (negb (c_requested c) && (c_eph c =? 0)); eapply IH; try exact E; assumption.
-Qed.
-
 (* a request that is not marked new, from a client the publisher does not know yet (the consumer has heard a HELLO or a frame):
    it is registered - tracked, marked as waiting, with the id it asked for - whatever else happens in that poll_recv *)
 Theorem heard_consumer_is_registered s f o q s1 f1 o1 r :
@@ -93,8 +75,7 @@ Proof.
   exists c. split; [|cbn; repeat split; reflexivity].
   destruct ((sf_msg_id f <=? q_mid q) && (q_eph q =? 0)).
   - inversion E; subst. cbn. apply put_client_In.
-  - destruct (scan (s_balance s) (s_now s / 1000000 - CONN_TIMEOUT) (put_client c (clients s)) (put_client c (clients s))
-                   (forallb (fun r0 => existsb (fun c0 => c_cid c0 =? r0) (put_client c (clients s))) (s_required s)) [])
+  - destruct (scan (s_balance s) (s_now s / 1000000 - CONN_TIMEOUT) (put_client c (clients s)) (put_client c (clients s)) true [])
       as [[cl' ds1] outs] eqn:Es.
     inversion E; subst. cbn [clients with_clients].
     eapply scan_keeps; [exact Es|apply put_client_In|].
